@@ -34,6 +34,7 @@ pub mod p18;
 pub mod p19;
 pub mod p20;
 pub mod pipe;
+pub mod pools;
 pub mod rows;
 pub mod univ;
 pub mod rjson;
